@@ -30,8 +30,9 @@ def main():
     ap.add_argument("--tier", default="quick")
     ap.add_argument("--keep", action="store_true")
     ap.add_argument("--needs", default="")
+    ap.add_argument("--wt", default=None, help="scratch worktree (default /tmp/seed/wt_<ID>)")
     a = ap.parse_args()
-    wt, out = "/tmp/seed/wt_%s" % a.pid, "/tmp/seed/out_%s" % a.pid
+    wt, out = a.wt or "/tmp/seed/wt_%s" % a.pid, "/tmp/seed/out_%s" % a.pid
     patch = os.path.join(out, "patch_%s.diff" % a.which)
     demos = [d for ext in (".py", ".sh") for d in glob.glob(os.path.join(out, "demo_%s%s" % (a.which, ext)))]
     if not os.path.exists(patch) or not demos:
